@@ -39,8 +39,9 @@ VARIABLES
 vars == <<st, termErr, ictx, latch, task, ex, exErr, k, reqSent, online, avail, inErr, inErrBy, closedIn,
           pcol, ecol, cctx, outErrs, outClosed, wire, hookCalls, waiters, status, nenv, gotTerminal, cancelLive>>
 
+\* ex = "blocked": the only worker is busy with another request
 Init == /\ st = "queued" /\ termErr = "none" /\ ictx = FALSE /\ latch = FALSE /\ task = "pending"
-        /\ ex = "idle" /\ exErr = "nil" /\ k = 0 /\ reqSent = FALSE /\ online = FALSE /\ avail = 0
+        /\ ex \in {"idle", "blocked"} /\ exErr = "nil" /\ k = 0 /\ reqSent = FALSE /\ online = FALSE /\ avail = 0
         /\ inErr = "none" /\ inErrBy = "none" /\ closedIn = FALSE /\ pcol = "run" /\ ecol = "run" /\ cctx = FALSE
         /\ outErrs = <<>> /\ outClosed = <<FALSE, FALSE>> /\ wire = <<>> /\ hookCalls = {} /\ waiters = 0
         /\ status = "none" /\ nenv = 0 /\ gotTerminal = FALSE /\ cancelLive = FALSE
@@ -126,6 +127,15 @@ UnpauseApi == /\ ActorFree /\ st = "paused" /\ ~cctx /\ waiters = 0
               /\ st' = "queued" /\ task' = "pending"
               /\ UNCHANGED <<termErr, ictx, latch, ex, exErr, k, reqSent, online, avail, inErr, inErrBy, closedIn, pcol, ecol, cctx,
                              outErrs, outClosed, wire, hookCalls, waiters, status, nenv, gotTerminal>>
+
+\* the task of a terminated request is taken off the queue (design); the code leaves it there until a worker pops it
+RemoveTask == /\ st = "gone" /\ task = "pending" /\ "CancelQueuedLeavesTask" \notin Dev /\ task' = "none"
+              /\ UNCHANGED <<st, termErr, ictx, latch, ex, exErr, k, reqSent, online, avail, inErr, inErrBy, closedIn, pcol, ecol, cctx, outErrs,
+                             outClosed, wire, hookCalls, waiters, status, nenv, gotTerminal>>
+\* the other request finishes and frees the worker
+FreeWorker == /\ ex = "blocked" /\ ex' = "idle"
+              /\ UNCHANGED <<st, termErr, ictx, latch, task, exErr, k, reqSent, online, avail, inErr, inErrBy, closedIn, pcol, ecol, cctx, outErrs,
+                             outClosed, wire, hookCalls, waiters, status, nenv, gotTerminal>>
 
 \* ---- executor (task-queue worker) ---------------------------------------------------------
 Pop == /\ ex = "idle" /\ task = "pending" /\ task' = "active" /\ ex' = "get"
@@ -234,18 +244,18 @@ Env == \/ \E s \in {"partial", "paused", "full", "failed"}, hr \in {"ok", "updat
        \/ \E s \in {"partial", "paused", "full", "failed"}, hr \in {"ok", "update", "error"} : Responses("C", s, hr) /\ gotTerminal' = gotTerminal
        \/ PauseApi \/ CtxCancel \/ ApiCancel
 Loaded == IF k > K THEN k - (K + 1) ELSE k
-Sys == GetTask \/ Release \/ TerminateRest \/ Pop \/ Load \/ Report \/ Reported \/ LatchOnly \/ (\E h \in {"ok", "pause", "error"} : Hook(h))
+Sys == GetTask \/ Release \/ TerminateRest \/ RemoveTask \/ Pop \/ Load \/ Report \/ Reported \/ LatchOnly \/ (\E h \in {"ok", "pause", "error"} : Hook(h))
        \/ Finish \/ Finished \/ ECollect \/ EClosed \/ ECtx \/ PCtx \/ PSendCancel \/ PDrainErr \/ PClosed
 EnvNoCtx == \/ \E s \in {"partial", "paused", "full", "failed"}, hr \in {"ok", "update", "error"} : bServing /\ Responses("B", s, hr)
             \/ \E s \in {"partial", "paused", "full", "failed"}, hr \in {"ok", "update", "error"} : Responses("C", s, hr) /\ gotTerminal' = gotTerminal
-            \/ PauseApi \/ ApiCancel
+            \/ PauseApi \/ ApiCancel \/ FreeWorker
 Next == CtxCancel \/ ((EnvNoCtx \/ Sys \/ UnpauseApi) /\ cancelLive' = cancelLive)
-ActorSteps == GetTask \/ Release \/ TerminateRest
+ActorSteps == GetTask \/ Release \/ TerminateRest \/ RemoveTask
 ExecSteps == Pop \/ Load \/ Report \/ Reported \/ LatchOnly \/ (\E h \in {"ok", "pause", "error"} : Hook(h)) \/ Finish \/ Finished
 EColSteps == ECollect \/ EClosed \/ ECtx
 PColSteps == PCtx \/ PSendCancel \/ PDrainErr \/ PClosed
 Fair(A) == WF_vars(A /\ cancelLive' = cancelLive)
-Spec == Init /\ [][Next]_vars /\ Fair(ActorSteps) /\ Fair(ExecSteps) /\ Fair(EColSteps) /\ Fair(PColSteps) /\ Fair(UnpauseApi)
+Spec == Init /\ [][Next]_vars /\ Fair(ActorSteps) /\ Fair(ExecSteps) /\ Fair(EColSteps) /\ Fair(PColSteps) /\ Fair(UnpauseApi) /\ Fair(FreeWorker)
 -----------------------------------------------------------------------------
 \* C04 safety
 ClosedBoth == outClosed = <<TRUE, TRUE>>
